@@ -478,6 +478,49 @@ def ticket_stream(ctx, rng, count):
     return viol
 
 
+TIMEZONES = ['America/New_York', 'Asia/Kolkata', 'Pacific/Kiritimati', 'Europe/London']
+
+
+def timezone_slice(ctx, rng, count):
+    """the property holds whatever the timezone of the process: a slice of the timestamp round trips is repeated with
+    TZ set to zones west/east of UTC (incl. a half-hour offset, +14 and a zone with DST); oracle (B) only"""
+    import os
+    import time
+    from pytezos.michelson.format import format_timestamp
+    from pytezos.michelson.forge import optimize_timestamp
+    viol = []
+    T = match_type({'prim': 'timestamp'})
+    zs = [0, 1, -1, 86399, 951782400, 1711846800, 1719792000, 1730599200, -30610224000, 253402300799, 253402300800,
+          -2203891200, 4102444800] + [G.gen_ts(rng) for _ in range(count)]
+    saved = os.environ.get('TZ')
+    try:
+        for tz in TIMEZONES:
+            os.environ['TZ'] = tz
+            time.tzset()
+            for z in zs:
+                ctx.case(('tz', tz, z), nontrivial=True, kind='ts:timezone:' + tz)
+                ok, s = lib.call(format_timestamp, z)
+                ok2, back = lib.call(optimize_timestamp, s) if ok else (False, s)
+                if not ok2 or back != z:
+                    viol.append((f'under TZ={tz}: optimize_timestamp(format_timestamp({z})) = {back!r}',
+                                 {'timestamp': z, 'TZ': tz, 'text': s if ok else None,
+                                  'repro': f"TZ={tz} python -c \"from pytezos.michelson.format import format_timestamp as f; from pytezos.michelson.forge import optimize_timestamp as o; print(o(f({z})))\"  # must print {z}"}))
+                    break
+                ok3, v2 = lib.call(lambda: T.from_micheline_value(T.from_micheline_value({'int': str(z)}).to_micheline_value('readable')).value)
+                if not ok3 or v2 != z:
+                    viol.append((f'under TZ={tz}: readable round trip of timestamp {z} gives {v2!r}',
+                                 {'timestamp': z, 'TZ': tz,
+                                  'repro': f"TZ={tz}: T=MichelsonType.match({{'prim':'timestamp'}}); T.from_micheline_value(T.from_micheline_value({{'int':'{z}'}}).to_micheline_value('readable')).value == {z}"}))
+                    break
+    finally:
+        if saved is None:
+            os.environ.pop('TZ', None)
+        else:
+            os.environ['TZ'] = saved
+        time.tzset()
+    return viol
+
+
 def corpus(ctx):
     items = []
     for p in sorted(glob.glob(os.path.join(lib.VERIF, 'corpus', PROP, '*.json'))):
@@ -498,6 +541,7 @@ def run(ctx: lib.Ctx) -> None:
     viols += fixed_witnesses(ctx)
     finding_witnesses(ctx)
     viols += ticket_stream(ctx, rng, ctx.n(60, 600))
+    viols += timezone_slice(ctx, rng, ctx.n(40, 400))
     bads = []
 
     tv, ts_jobs = timestamp_cases(ctx, rng, ctx.n(150, 2000))
